@@ -384,9 +384,12 @@ OnRecv(st0, e) ==
             ELSE LET old == IF \E h \in st1.hold : h.src = e.src THEN HoldOf(st1, e.src).pkts ELSE <<>>
                      pk == Append(old, Pkt(e))
                      a == Assemble([pkts |-> old], <<Pkt(e)>>)
-                     Q == [qs |-> AllQs(pk), echo |-> pk[1].qs, known |-> a.known, probe |-> a.probe, port |-> e.port,
+                     \* a query from another port of the address a truncated train is held for (a legacy resolver next to an mDNS
+                     \* responder, or the reverse) is a query of its own: its unicast reply echoes *its* id and questions (C11)
+                     otherPort == old # <<>> /\ HoldOf(st1, e.src).port # e.port
+                     Q == [qs |-> AllQs(pk), echo |-> IF otherPort THEN Pkt(e).qs ELSE pk[1].qs, known |-> a.known, probe |-> a.probe, port |-> e.port,
                            tq |-> e.t, ta |-> e.t, single |-> TotalQs(pk) = 1, firstSingleImm |-> FirstSingleImm(pk)]
-                     ans == Answer([st1 EXCEPT !.hold = {h \in @ : h.src # e.src}], Q, e.src, e.sock, pk[1].id)
+                     ans == Answer([st1 EXCEPT !.hold = {h \in @ : h.src # e.src}], Q, e.src, e.sock, IF otherPort THEN Pkt(e).id ELSE pk[1].id)
                  IN [ans EXCEPT !.exp.canary = ("tag" \in DOMAIN e /\ e.tag = "canary")]
 
 OnRand(st, e) ==
